@@ -12,6 +12,7 @@ quantized program does not raise.
 -/
 import Proofs.C05.Cat
 import Proofs.C05.Rescale
+import Proofs.C05.Alias
 
 namespace Quanto
 open C05
@@ -623,6 +624,75 @@ example : specRescale f16 127 3 (.fin (1911 / 8192)) (.fin (1911 / 8192)) = true
 example : |(677 / 2048 : Rat) - 1 / 3| ≤ (129 / 16384 : Rat) / 2 + epsC01 f16 (1 / 3) (129 / 16384) 42 :=
   C05_requant_within_half_step_int8 f16 (by simp [WorkFmt]) (1 / 3) (129 / 16384) (by norm_num)
     (by norm_num) (by norm_num) 42 (677 / 2048) (by decide +kernel) (by decide +kernel)
+
+
+/-! ## G — in-place writes and storage shared between tensors -/
+
+/-- the operations of the aliasing programs, as the harness names them -/
+def aliasOps : List String :=
+  ["clone", "contiguous-clone", "to-copy", "detach", "t", "transpose", "unsqueeze", "view-flat",
+   "expand-as-is", "neg", "relu", "mul-scalar", "cat-with-itself", "stack-with-itself"]
+
+/-- T8: `copy_` into `a` leaves every tensor that shares no cell with `a` unchanged (and, by
+symmetry of the statement, `copy_` into such a tensor leaves `a` unchanged). -/
+theorem C05_copy_independent (a b c : QRef) (h : Heap) (hd : b.data ≠ a.data)
+    (hds : b.data ≠ a.scale) (hs : b.scale ≠ a.scale) (hsd : b.scale ≠ a.data) :
+    b.value (copyInto a c h) = b.value h := copy_independent a b c h hd hds hs hsd
+
+/-- T8: the result of an operation that allocates both inner tensors is independent of later
+in-place writes into its operand — `clone`, `clone(contiguous)`, `to(copy=True)`. -/
+theorem C05_fresh_result_independent (op : String) (_hop : producerSharing op = some .fresh)
+    (a c : QRef) (d s : Nat) (h : Heap) (hd : d ≠ a.data) (hds : d ≠ a.scale) (hs : s ≠ a.scale)
+    (hsd : s ≠ a.data) :
+    (produce .fresh a d s).value (copyInto a c h) = (produce .fresh a d s).value h ∧
+    a.value (copyInto (produce .fresh a d s) c h) = a.value h := by
+  constructor
+  · exact copy_independent a ⟨d, s⟩ c h hd hds hs hsd
+  · exact copy_independent ⟨d, s⟩ a c h (Ne.symm hd) (Ne.symm hsd) (Ne.symm hs) (Ne.symm hds)
+
+/-- T8: a view (both inner tensors shared) follows an in-place write into its base. -/
+theorem C05_view_result_follows (a c : QRef) (d s : Nat) (h : Heap) (hne : a.data ≠ a.scale) :
+    (produce .both a d s).value (copyInto a c h) = (h c.data, h c.scale) :=
+  copy_follows a c h hne
+
+/-- T8: exactly the operations whose sharing is what the float program requires (views share both
+inner tensors, everything else shares none): the three clones and the six views. -/
+theorem C05_sharing_respects_float_iff :
+    aliasOps.filter (fun op => (producerSharing op).any (sharingRespectsFloat op)) =
+      ["clone", "contiguous-clone", "to-copy", "detach", "t", "transpose", "unsqueeze", "view-flat",
+       "expand-as-is"] := by decide
+
+/-- T8 at full strength is false on the code as it is: `neg`, `relu`, `cat`, `stack` return fresh
+payloads with their operand's scale tensor, scalar `mul` a fresh scale with its operand's payload —
+an in-place `copy_` into the operand changes such a result although the float program leaves it
+unchanged. -/
+theorem C05_counterexample_copy_aliasing :
+    (["neg", "relu", "cat-with-itself", "stack-with-itself"].all
+        (fun op => producerSharing op == some .scale && !floatIsView op)) = true ∧
+    (producerSharing "mul-scalar" = some .data ∧ floatIsView "mul-scalar" = false) ∧
+    (∀ (a c : QRef) (d : Nat) (h : Heap), d ≠ a.data → d ≠ a.scale → h c.scale ≠ h a.scale →
+      (produce .scale a d 0).value (copyInto a c h) ≠ (produce .scale a d 0).value h) ∧
+    (∀ (a c : QRef) (s : Nat) (h : Heap), s ≠ a.scale → s ≠ a.data → a.data ≠ a.scale →
+      h c.data ≠ h a.data →
+      (produce .data a 0 s).value (copyInto a c h) ≠ (produce .data a 0 s).value h) := by
+  refine ⟨by decide, ⟨by decide, by decide⟩, ?_, ?_⟩
+  · intro a c d h hd hds hdiff
+    exact copy_changes_shared_scale a c d h hd hds hdiff
+  · intro a c s h hs hsd hne hdiff
+    exact copy_changes_shared_data a c s h hs hsd hne hdiff
+
+/-- the outcome the model predicts is the one the float program requires exactly when the sharing
+respects the float program -/
+theorem C05_predicted_outcome_iff (op : String) (sh : Sharing) :
+    predicted sh = (if floatIsView op then Outcome.follows else Outcome.unchanged) ↔
+      sharingRespectsFloat op sh = true := by
+  unfold sharingRespectsFloat predicted
+  cases sh <;> cases floatIsView op <;> simp
+
+/-- non-vacuity: cells 0/1 for `a`, 2/3 for a clone, 4/5 for the source of the write -/
+example : (produce .fresh ⟨0, 1⟩ 2 3).value (copyInto ⟨0, 1⟩ ⟨4, 5⟩ id) = (produce .fresh ⟨0, 1⟩ 2 3).value id :=
+  (C05_fresh_result_independent "clone" (by decide) ⟨0, 1⟩ ⟨4, 5⟩ 2 3 id (by decide) (by decide)
+    (by decide) (by decide)).1
 
 /-- the live dispatch tables (regenerated from the implementation on every run) are exactly the
 ops the model transcribes: an op added to or removed from a table breaks this obligation -/
